@@ -587,6 +587,12 @@ static int32 pkcs12import(psPool_t *pool, const unsigned char **buf,
      */
     if ((uint32) (end - p) < 1)
     {
+        if (decryptKey)
+        {
+            memset_s(decryptKey, keyLen, 0x0, keyLen);
+            psFree(decryptKey, pool);
+        }
+        psFree(iv, pool);
         return PS_PARSE_FAIL;
     }
     if (*p == (ASN_CONTEXT_SPECIFIC | ASN_PRIMITIVE))
